@@ -252,6 +252,19 @@ def prop_returns(case, ctx):
     for t, (x, y) in enumerate(zip(got, want)):
         ctx.check(abs(float(x) - y) <= 1e-12 * (1 + abs(y)), "C14.returns.backward_recursion",
                   lambda: f"t={t}: {x} vs {y} (rewards {rs}, gamma {gamma!r})")
+    # the reward sequence handed over as an array of any dtype (or a tuple): same answer, and the caller's array is left alone
+    for mk in (tuple, lambda r: np.array(r, dtype=float), lambda r: np.array(r, dtype=np.float32), lambda r: np.array(r)):
+        arg = mk(rs)
+        if isinstance(arg, np.ndarray) and arg.dtype == np.float32 and not all(float(np.float32(r)) == float(r) for r in rs):
+            continue
+        before = np.array(arg, copy=True) if isinstance(arg, np.ndarray) else arg
+        for rep in range(2):        # twice on the same object
+            got2 = ctx.call("C14.returns.raises", Policy.calc_returns, arg, gamma)
+            ok = len(got2) == len(rs) and all(abs(float(x) - y) <= 1e-6 * (1 + abs(y)) for x, y in zip(got2, want))
+            ctx.check(ok, "C14.returns.backward_recursion",
+                      lambda: f"rewards passed as {type(arg).__name__}{getattr(arg, 'dtype', '')} (call {rep + 1}): {list(got2)} vs {want}")
+        if isinstance(arg, np.ndarray):
+            ctx.check(bool(np.array_equal(arg, before)), "C14.returns.caller_array_modified", lambda: f"{before} became {arg}")
     ctx.event("gamma_type=" + type(gamma).__name__)
     ctx.nontrivial(len(rs) >= 2 and any(rs))
 
